@@ -133,6 +133,21 @@ pub fn run_one(engine: &str, seed: u64, ctx: &mut Ctx) -> OneResult {
                 counts: vec![],
             }
         }
+        "envelope-cross" => {
+            let n = ctx.names.len() as u64;
+            let instr = ctx.names[(ctx.cur_index % n) as usize].clone();
+            let sc = envelope::generate_cross(seed, &instr, ((ctx.cur_index / n) % 8) as u8);
+            let (vs, stats) = envelope::execute_cross(&sc, &mut ctx.plain);
+            let scv = if vs.is_empty() { Value::Null } else { serde_json::to_value(&sc).unwrap() };
+            OneResult {
+                effective: vec![],
+                trace_line: None,
+                violations: vs.into_iter().map(|v| (v, scv.clone())).collect(),
+                sample: serde_json::json!({"instruction": sc.instr, "layout": sc.layout}),
+                stats,
+                counts: vec![],
+            }
+        }
         "envelope-growth" => {
             let sc = envelope::generate_growth(seed, &ctx.names);
             let r = envelope::execute_growth(&sc, &mut ctx.iset, &ctx.names);
@@ -230,6 +245,10 @@ pub fn replay_one(engine: &str, scenario: &Value, ctx: &mut Ctx) -> Vec<Violatio
             let sc: envelope::OpSc = serde_json::from_value(scenario.clone()).expect("envelope-op scenario");
             envelope::execute_op(&sc, &mut ctx.plain).violations
         }
+        "envelope-cross" => {
+            let sc: envelope::CrossSc = serde_json::from_value(scenario.clone()).expect("envelope-cross scenario");
+            envelope::execute_cross(&sc, &mut ctx.plain).0
+        }
         "envelope-growth" => {
             let sc: envelope::GrowthSc = serde_json::from_value(scenario.clone()).expect("envelope-growth scenario");
             envelope::execute_growth(&sc, &mut ctx.iset, &ctx.names).violations
@@ -250,6 +269,11 @@ pub fn scenario_of(engine: &str, seed: u64, ctx: &mut Ctx) -> Value {
             serde_json::to_value(envelope::generate_op(seed, &instr, ctx.tier == "thorough")).unwrap()
         }
         "envelope-growth" => serde_json::to_value(envelope::generate_growth(seed, &ctx.names)).unwrap(),
+        "envelope-cross" => {
+            let n = ctx.names.len() as u64;
+            let instr = ctx.names[(ctx.cur_index % n) as usize].clone();
+            serde_json::to_value(envelope::generate_cross(seed, &instr, ((ctx.cur_index / n) % 8) as u8)).unwrap()
+        }
         "isolation" => serde_json::to_value(isolation::generate(seed, &ctx.names)).unwrap(),
         "entropy-c12" => serde_json::to_value(entropy::generate(seed, "C12", ctx.tier == "thorough")).unwrap(),
         "entropy-c13" => serde_json::to_value(entropy::generate(seed, "C13", ctx.tier == "thorough")).unwrap(),
